@@ -127,6 +127,9 @@ type run struct {
 	lastInstr       ssa.Instruction
 	lazyAssumes     int
 	choiceMemo      map[string]int
+	ghostSig        map[*value]ghostSig // JWS contract stubs: signature object -> (signing key, signed payload)
+	ghostParsed     value               // what the parser stub yields
+	ghostFlags      map[string]value    // named results of contract stubs (e.g. Validate outcome)
 }
 
 type knownClass struct {
@@ -573,4 +576,9 @@ func (r *run) secondOpinion(extra []*smt.Term) smt.Result {
 		return smt.Unknown
 	}
 	return res
+}
+
+type ghostSig struct {
+	key     *value
+	payload *value // pointer to the struct that was signed (a private copy)
 }
